@@ -55,7 +55,8 @@ PROPS["C13"] = dict(
            "c13_effective_window_f64: any finite f64 RTT); temporal clause: 3 consecutive decisions with arbitrary state changes in between",
     stubs=["alloc::fmt::format -> empty String", "RttTracker::update_estimate -> no-op (c13_proof_stamp_sites only: RTT sampling is C14)"],
     assumptions=["clock values <= 2^48 ms", "trace harness starts with no rejoin run in progress (a run cannot pre-date the trace)"],
-    outside="keepalive-echo stamping site lives in the shell (process_uplink_packet) and is decided by the C09 shell harness when present; "
+    outside="the keepalive-echo stamping site lives in the shell (process_uplink_packet) and is decided under C09 (c09_keepalive: the proof stamp changes "
+            "only for an accepted echo with an outstanding probe; no other datagram type stamps it there); "
             "traces longer than 3 decisions follow inductively from c13_latch_step's run-bookkeeping facts",
     harnesses=[
         H("c13::c13_effective_window", "core", desc="effective staleness / pull windows equal the clamp formulas"),
